@@ -10,19 +10,22 @@ extern "C" int omp_get_num_procs(void) { return vf::g_fake_procs; }
 namespace vf {
 using SegFn = CaseResult (*)(const RunCtx &, TapeReader &, unsigned size_hint);
 #define VF_DECL(ID) extern const SegFn SEG_FN_##ID;
-VF_DECL(u8) VF_DECL(i8) VF_DECL(u16) VF_DECL(i16) VF_DECL(u32) VF_DECL(i32) VF_DECL(u64) VF_DECL(i64) VF_DECL(f32) VF_DECL(f64)
+VF_DECL(u8) VF_DECL(i8) VF_DECL(u16) VF_DECL(i16) VF_DECL(u32) VF_DECL(i32) VF_DECL(u64) VF_DECL(i64) VF_DECL(f32) VF_DECL(f64) VF_DECL(ll) VF_DECL(ull)
 
 static CaseResult run(const RunCtx &ctx, const Tape &tape, Tape &canon) {
-    static const SegFn *const FNS[10] = {&SEG_FN_u32, &SEG_FN_u64, &SEG_FN_i32, &SEG_FN_i64, &SEG_FN_u8,
-                                         &SEG_FN_i8, &SEG_FN_u16, &SEG_FN_i16, &SEG_FN_f32, &SEG_FN_f64};
+    // long long / unsigned long long are distinct 64-bit types on LP64 (int64_t is long): the builder's wide arithmetic must be selected
+    // by width, not by type name
+    // (appended after the original ten so that the key-type word of older replay files keeps its meaning)
+    static const SegFn *const FNS[12] = {&SEG_FN_u32, &SEG_FN_u64, &SEG_FN_i32, &SEG_FN_i64, &SEG_FN_u8,  &SEG_FN_i8,
+                                         &SEG_FN_u16, &SEG_FN_i16, &SEG_FN_f32, &SEG_FN_f64, &SEG_FN_ll,  &SEG_FN_ull};
     TapeReader t(tape);
     unsigned size_hint = (unsigned) t.below(101);
     size_t kt;
     if (ctx.prop == "C04") { // exact rational oracle: integer keys only
-        static const unsigned tw[] = {3, 3, 2, 3, 1, 1, 1, 1};
+        static const unsigned tw[] = {3, 3, 2, 3, 1, 1, 1, 1, 0, 0, 1, 1};
         kt = t.weighted(tw);
     } else {
-        static const unsigned tw[] = {3, 3, 2, 2, 1, 1, 1, 1, 2, 2};
+        static const unsigned tw[] = {3, 3, 2, 2, 1, 1, 1, 1, 2, 2, 1, 1};
         kt = t.weighted(tw);
     }
     CaseResult r = (*FNS[kt])(ctx, t, size_hint);
@@ -32,7 +35,7 @@ static CaseResult run(const RunCtx &ctx, const Tape &tape, Tape &canon) {
 
 static const char *rule(const std::string &prop) {
     if (prop == "C03")
-        return "cases: epsilon 0..1024 (biased to 0..4) x 10 key types x {builder API fed generated strictly increasing (x,y) points with rank jumps | "
+        return "cases: epsilon 0..1024 (biased to 0..4) x 12 key types (the ten fixed-width / floating types plus long long and unsigned long long) x {builder API fed generated strictly increasing (x,y) points with rank jumps | "
                "make_segmentation_par over generated sorted key arrays, 1..20 threads, points captured by the PGM_INDEX_VERIF hook}. oracle: segments in "
                "increasing first-key order, every point in exactly one segment, residual <= eps (+1/2 intercept rounding) in exact 128-bit arithmetic "
                "for integer keys / <= eps+1+2^-20(1+eps) in long double for floating keys, first-occurrence points present. non-trivial: >=2 segments "
